@@ -191,6 +191,7 @@ def helperKindOf (j : Json) : Option HelperKind :=
   | some "evalp" => some .evalp
   | some "rcstate" => some .rcstate
   | some "vret" => some .vret
+  | some "counter" => some .counter
   | some "macro" => (fld j "sig").map (fun s => .macroH (macroSigOf s))
   | _ => none
 
